@@ -327,6 +327,7 @@ package datatypes
 //@   ensures[accepted-consumes-one-id] old(idRoom(its.BaseDatatype)) && isLocal && result1 == nil ==> its.opID.Seq == old(its.opID.Seq) + 1
 //@   ensures[wf] txWF(its)
 //@   assumes[document-operations-return-json-nodes] isLocal && result1 == nil && result0 != nil && (op.(*operations.DocPutInObjOperation) || op.(*operations.DocRemoveInObjOperation)) ==> result0.(*orda.jsonObject) || result0.(*orda.jsonArray) || result0.(*orda.jsonElement)
+//@   assumes[a-local-document-remove-returns-the-removed-node] isLocal && result1 == nil && op.(*operations.DocRemoveInObjOperation) ==> result0 != nil
 //@   assumes[document-array-operations-return-json-nodes] isLocal && result1 == nil && (op.(*operations.DocUpdateInArrayOperation) || op.(*operations.DocDeleteInArrayOperation)) ==> result0.([]orda.jsonType)
 //@   assumes[list-delete-returns-the-deleted-values] isLocal && result1 == nil && op.(*operations.DeleteOperation) && result0 != nil ==> result0.([]types.JSONValue) && (forall v in result0.(as []types.JSONValue) :: v != nil)
 //@   modifies @(*TransactionDatatype).BeginTransaction, @(*TransactionDatatype).EndTransaction, @(*BaseDatatype).executeLocalBase, TransactionContext.opBuffer, G:sentences
